@@ -47,11 +47,25 @@ class AoTrace:
                 a.publish(Event(signal=SIG[op[1]]))
             elif op[0] == "post_fifo":
                 a.post_fifo(ev(op[1]))
+        names = []
+
+        def note_names():
+            try:
+                cur = charts.config_of(a)
+            except Exception:  # noqa
+                cur = "?"
+            fn = t.S[cur] if isinstance(cur, int) and cur >= 0 else None
+            sf = getattr(a, "state_fn", None)
+            names.append({"config": charts.name_of(cur) if isinstance(cur, int) else cur, "state_name": getattr(a, "state_name", None),
+                          "state_fn_ok": fn is not None and (sf is fn or sf is getattr(fn, "__wrapped__", fn)),
+                          "current_state": a.current_state()})
         a.start_at(t.S[spec["start"]])
         s.settle()
+        note_names()
         for name in spec["events"]:
             a.post_fifo(ev(name))
             s.settle()
+            note_names()
         recs = [(r.datetime, r.start_state, r.signal, r.end_state) for r in a.full.trace]
         try:
             text = a.trace()
@@ -60,7 +74,7 @@ class AoTrace:
             text, err = None, "%s: %s" % (type(e).__name__, e)
         # what happened, from the handlers' own log: the configuration after start and every (signal, TRAN) step
         return {"records": [(x[1], x[2], x[3]) for x in recs], "no_timestamp": sum(1 for x in recs if x[0] is None),
-                "raw": list(t.raw), "text": text, "text_error": err,
+                "raw": list(t.raw), "text": text, "text_error": err, "names": names,
                 "rendered": None if any(x[0] is None for x in recs) else "\n" + "".join(instr.fmt_trace(x, "ao") for x in recs),
                 "live": list(live), "thread_exceptions": [x[:3] for x in s.thread_exceptions]}
 
